@@ -191,8 +191,8 @@ func SafeDiv[T Integer](x T, y T) (T, error) {
 
 func SafeLeftShift[T Integer](val T, shift uint8) (T, error) {
 	result := val << shift
-	// if the result is smaller than the original value, we have an overflow
-	if result < val {
+	// shifting back must restore the original value, otherwise bits (or the sign) were lost
+	if result>>shift != val {
 		return 0, ierrors.WithMessagef(ErrIntegerOverflow, "%d << %d", val, shift)
 	}
 
